@@ -144,6 +144,13 @@ class Model(object):
   def _n_seq(self, n, st, in_td):
     return self._seq(n['c'], st, in_td)
 
+  def _n_custom(self, n, st, in_td):
+    # a node type the executor does not know (a user's own PhaseNode subclass): the docs say nothing; the run cannot
+    # complete, and (C01's audit) must not be reported as if it had
+    self.x.unspecified.append('user-defined node type')
+    self._terminal(('EXC', 'UnhandledNodeType'))
+    return TERM
+
   def _n_branch(self, n, st, in_td):
     if not in_td and st is not None and st.failed:
       return CONT
